@@ -289,6 +289,7 @@ F5_SCRIPTS = {
     "flash-pattern-folded-from-named-list-then-mutated": "from Reduino.Actuators import Led\nled = Led(9)\nxs = [1, 0, 1]\nled.flash_pattern(xs, 10)\nxs.append(0)\nxs.append(1)\nmon.write('done')\n",
     "parameter-shadows-global-constant": "label = 'hello'\ndef width(label):\n    return len(label)\nw = width('hi')\nmon.write(w)\n",
     "derived-in-main-loop": "x = 1\nwhile True:\n    y = x + 1\n    mon.write(y)\n    x = x + 2\n    sleep(1)\n",
+    "helper-local-named-like-a-module-constant": "label = 'ab'\nn = 3\ndef f():\n    label = 'abcdefg'\n    n = 50\n    return len(label) + n\nmon.write(len(label))\nsleep(len(label) * 100 + n)\nmon.write(f())\nmon.write(len(label) + n)\ndef g(x):\n    label = 'zzz'\n    return x\nh = 1.5\ng(1)\ng(h)\nmon.write(len(label))\n",
     "len-of-non-ascii-literals": "mon.write(len('héllo'))\ns = 'héllo'\nmon.write(len(s))\nif len('µs') == 2:\n    mon.write('two')\nelse:\n    mon.write('not two')\nmon.write(len('größe') + len('€'))\nsleep(len('°°°'))\n",
     "restore-to-entry-constant-then-change-later-in-pass": "v = 1\nwhile True:\n    v = 1\n    sleep(v)\n    mon.write(v)\n    v = 7\n    mon.write(v)\n",
     "restore-constant-after-taken-branch": "v = 2\nc = 1\nif c > 0:\n    v = 9\nmon.write(v)\nv = 2\nmon.write(v)\n",
